@@ -64,6 +64,12 @@ class C11(Check):
             ops.append(['scan', ' '.join([cfg_for_text(st), cfg_for_text(st)] + (rng.sample(texts, 1) if texts else [])), st])
         st = rng.choice(starts)
         ops.append(['interactive', rng.choice(texts) if texts and rng.random() < 0.5 else cfg_for_text(st), st, rng.randint(1, 6), rng.choice(['drop', 'resume'])])
+        for _ in range(2):
+            # a small seeded tree of mutable / immutable sessions (forks, lexer steps, resume, feed_eof, positions)
+            st = rng.choice(starts)
+            names = ['step', 'step', 'step', 'accepts', 'copy', 'to_imm', 'to_mut', 'exhaust', 'resume', 'eof', 'pos', 'accepts']
+            sops = [[rng.randrange(8), rng.choice(names)] for _ in range(rng.randint(4, 14))]
+            ops.append(['session', rng.choice(texts) if texts and rng.random() < 0.5 else cfg_for_text(st), st, sops])
         return ops
 
     def gen_plan(self, rng, tier):
